@@ -1,6 +1,7 @@
 """C01 / C02 / C11: log-abs-det bookkeeping, direction pairing, linear-family accessors."""
 
 import ast
+import copy
 
 from ..astutil import attr_chain, const_number, product_factors, signed_terms
 from .lin_word import lin_word_rule
@@ -1316,7 +1317,7 @@ def orth_rule(ctx):
     if norm_text(pre.get(carried, ast.Name(id=carried, ctx=ast.Load()))) != xin:
         res.fail(Finding("ORTH-REV", ap.module, ap.qualname, loop, "the running outputs must start as the inputs", construct="initial value of the reflections"))
     # rows paired with their own squared norm
-    q = paired = None
+    q = paired = template = None
     it = loop.iter
     if isinstance(loop.target, ast.Tuple) and len(loop.target.elts) == 2 and isinstance(it, ast.Call) and norm_text(it.func) == "zip" and len(it.args) == 2:
         q, paired = norm_text(loop.target.elts[0]), norm_text(loop.target.elts[1])
@@ -1325,8 +1326,28 @@ def orth_rule(ctx):
         from ..astutil import as_reduction
 
         red = as_reduction(a1e, ("sum",))
+        template = None
+        if red is None:
+            # an elementwise function of the squared norms (2.0 / sum(q**2, -1) hoisted out of the loop): the
+            # pairing is with g(|q|^2); g is put back at the use of the paired name in the body
+            def strip(e):
+                r = as_reduction(e, ("sum",))
+                if r is not None:
+                    return r, ast.Name(id="__sqnorm__", ctx=ast.Load())
+                if isinstance(e, ast.BinOp) and isinstance(e.op, (ast.Mult, ast.Div)):
+                    for side, other, left in ((e.left, e.right, True), (e.right, e.left, False)):
+                        if const_number(other) is not None:
+                            got = strip(side)
+                            if got is not None:
+                                r, t = got
+                                return r, ast.BinOp(left=t if left else other, op=e.op, right=other if left else t)
+                return None
+
+            got = strip(a1e)
+            if got is not None:
+                red, template = got
         if norm_text(a0) == rows and red is not None and red[2] is not None and const_number(red[2]) in (-1, 1) and _is_square_of(red[1], rows):
-            res.ok("each row is paired with its own squared norm")
+            res.ok("each row is paired with its own squared norm" + (" (through `%s`)" % norm_text(template) if template is not None else ""))
         else:
             res.fail(Finding("ORTH-REV", ap.module, ap.qualname, loop, "rows must be paired with their own squared norms (zip(q_vectors, sum(q_vectors**2, -1)))"))
             return res
@@ -1339,7 +1360,17 @@ def orth_rule(ctx):
     if env is None or carried not in env:
         res.undecide("_apply_transforms", "the loop body does not rebind `%s` on a single path" % carried)
         return res
-    v = _reflection_verdict(env[carried], carried, q, paired)
+    upd = env[carried]
+    if template is not None:
+        class _Put(ast.NodeTransformer):
+            def visit_Name(self, n):
+                if n.id == paired and isinstance(n.ctx, ast.Load):
+                    return copy.deepcopy(template)
+                return n
+
+        upd = _Put().visit(copy.deepcopy(upd))
+        paired = "__sqnorm__"
+    v = _reflection_verdict(upd, carried, q, paired)
     if v == "ok":
         res.ok("reflection: %s - outer(<%s, q>, (2 / |q|^2) q), threaded through the loop" % (carried, carried))
     elif isinstance(v, tuple):
@@ -1525,8 +1556,8 @@ def ld_state_rule(ctx):
                         res.fail(Finding("LD-STATE", cls.module, m.qualname, st, "`self.%s` memoises a value computed from the stored %s and is not cleared in %s: after the stored value is replaced (load_state_dict%s) the memo still answers for the old one" % (memo, ", ".join("`%s`" % a for a in src), " / ".join(missing), ", an optimiser step" if "train" in needs else ""), construct="memo %s.%s" % (cls.name, memo)))
                     else:
                         res.ok("%s.%s: memo of %s cleared in %s" % (cls.name, memo, src, needs), nontrivial=False)
-    if n_cls < 5:
-        raise AnalysisIncomplete("LD-STATE: %d module classes with stored constructor values (< 5 confirmed by hand)" % n_cls)
+    if n_cls < 4:
+        raise AnalysisIncomplete("LD-STATE: %d module classes with stored constructor values (< 4; the count on the pinned tree is larger, the floor leaves room for merged call sites confirmed by hand)" % n_cls)
     return res
 
 
@@ -1661,6 +1692,29 @@ def orth_init_rule(ctx):
 # ---------------------------------------------------------------------------------------
 
 
+def ld_orth_rule(ctx):
+    """LD-ORTH = ORTH-REV (shared with C11): HouseholderSequence reports a zero log-det, which is right only
+    while every step is the orthogonal reflection x - 2 (x.q) q / |q|^2 with one and the same q."""
+    r = orth_rule(ctx)
+    r.rule = "LD-ORTH"
+    for f in r.findings:
+        f.rule = "LD-ORTH"
+    return r
+
+
+def inv_layout_rule(ctx):
+    """INV-LAYOUT = BM-ROWS (shared with C12): in the image code paths every permute / reshape keeps the
+    axes' memory order consistent and each direction hands its outputs back laid out as the inputs --
+    otherwise forward and inverse each apply a pixel shuffle and inverse(forward(x)) is x shuffled twice."""
+    from .c12 import rows_rule
+
+    r = rows_rule(ctx)
+    r.rule = "INV-LAYOUT"
+    for f in r.findings:
+        f.rule = "INV-LAYOUT"
+    return r
+
+
 def inv_round_rule(ctx):
     """CouplingTransform.forward is evaluated on a symbolic input, its symbolic result is fed to
     CouplingTransform.inverse (nfstatic/peval.py; the conditioner, the coupling hooks and the
@@ -1723,21 +1777,42 @@ def inv_round_rule(ctx):
             "_coupling_transform_inverse": SymFn("cinv", 2),
             "unconditional_transform": Stage("U") if with_u else None,
         }
-        pe = PEval(Obj(attrs, methods))
-        pe.simplify = simplify
+        import re as _re
+
         x, cx = Sym(("x",)), Sym(("ctx",))
-        try:
-            y = pe.call_method(fwd.node, [x, cx])
-            if not (isinstance(y, tuple) and len(y) == 2 and all(isinstance(v, Sym) for v in y)):
-                raise PUndecided("forward does not return a pair of tensors")
-            z = pe.call_method(inv.node, [y[0], cx])
-            if not (isinstance(z, tuple) and len(z) == 2 and isinstance(z[0], Sym)):
-                raise PUndecided("inverse does not return a pair")
-        except PUndecided as ex:
-            res.undecide("CouplingTransform round trip %s" % tag, str(ex))
+        y = z = None
+        failed = None
+        for _attempt in range(4):
+            pe = PEval(Obj(attrs, methods))
+            pe.simplify = simplify
+            try:
+                y = pe.call_method(fwd.node, [x, cx])
+                if not (isinstance(y, tuple) and len(y) == 2 and all(isinstance(v, Sym) for v in y)):
+                    raise PUndecided("forward does not return a pair of tensors")
+                z = pe.call_method(inv.node, [y[0], cx])
+                if not (isinstance(z, tuple) and len(z) == 2 and isinstance(z[0], Sym)):
+                    raise PUndecided("inverse does not return a pair")
+                failed = None
+                break
+            except PUndecided as ex:
+                failed = str(ex)
+                # a configuration attribute this rule does not model (a fast-path switch computed by the
+                # constructor): take its generic value None -- the configuration-specific paths are
+                # C07's (CPL-SCAT / CPL-COND / CPL-PART decide where features go for every mask)
+                m = _re.search(r"self\.(_\w+)", failed)
+                if m and m.group(1) not in attrs and m.group(1) not in methods:
+                    attrs[m.group(1)] = None
+                    res.notes.append("configuration attribute self.%s taken as None (generic path); its other values are C07's" % m.group(1))
+                    continue
+                break
+            except PRaises as ex:
+                res.fail(Finding("INV-ROUND", inv.module, inv.qualname, ex.node if ex.node is not None else inv.node, "the round trip %s raises: %s" % (tag, ex.what), construct="round trip %s" % tag))
+                failed = "raised"
+                break
+        if failed == "raised":
             continue
-        except PRaises as ex:
-            res.fail(Finding("INV-ROUND", inv.module, inv.qualname, ex.node if ex.node is not None else inv.node, "the round trip %s raises: %s" % (tag, ex.what), construct="round trip %s" % tag))
+        if failed is not None:
+            res.undecide("CouplingTransform round trip %s" % tag, failed)
             continue
         back = simplify(z[0].term)
         if back != ("x",):
@@ -1793,7 +1868,7 @@ def ld_elem_rule(ctx):
 
 register(
     "C01",
-    [nodrop_rule, ld_shape_rule, ld_mult_rule, ld_elem_rule, ld_state_rule],
+    [nodrop_rule, ld_shape_rule, ld_mult_rule, ld_elem_rule, ld_state_rule, ld_orth_rule],
     "LD-STATE: in every nn.Module class, a non-persistent buffer or plain tensor attribute whose constructor expression is "
     "computed from a constructor value that the same constructor stores as a parameter or persistent buffer (through local "
     "aliases and tensor wrappers) is a second copy of restorable state; if any method reads it and no method refreshes it, the "
@@ -1863,7 +1938,7 @@ def inv_state_rule(ctx):
 
 register(
     "C02",
-    [inv_sign_rule, inv_config_rule, inv_pos_rule, inv_state_rule, ld_state_rule, inv_round_rule],
+    [inv_sign_rule, inv_config_rule, inv_pos_rule, inv_state_rule, ld_state_rule, inv_round_rule, inv_layout_rule],
     "INV-ROUND: CouplingTransform.forward is partially evaluated on a symbolic input, its result fed to inverse, and the outcome "
     "simplified with the contracts of the parts only (gather/scatter over the two index buffers, hook_inverse(hook_forward(v, p), p) "
     "= v, U^-1(U(v)) = v): it must reduce to x and the log-dets must pair up -- which features condition, in which order the parts "
